@@ -122,9 +122,7 @@ Theorem cut_balanced_cap argsort n D m sort ret labels od :
   valid n D = true -> argsort_ok argsort ->
   cut_balanced argsort D m sort ret = Ok (labels, od) ->
   forall l, cluster_size labels l <= m.
-Proof.
-  intros Hv Ha Hc. destruct (cut_balanced_subtrees argsort n D m sort ret labels od Hv Ha Hc) as [ids [_ [_ H]]]. exact H.
-Qed.
+Proof. exact (cut_balanced_cap_lemma argsort n D m sort ret labels od). Qed.
 Print Assumptions cut_balanced_cap.
 
 (** 5a. aggregate_dendrogram: for every valid dendrogram and 1 <= n_clusters <= n the result is a valid
